@@ -54,6 +54,7 @@ let dispatch (comp : string) (items : M.item list) : verdict =
   | "PC" -> VB (M.pc_check_items items)
   | "PCS" -> VN (M.pcs_check_items items)
   | "TH" -> VB (M.th_check_items items)
+  | "JO" -> VB (M.jo_check_items items)
   | _ -> failwith ("unknown component " ^ comp)
 
 let rec int_of_pos (p : M.positive) : int =
